@@ -8,6 +8,7 @@ import (
 	"fmt"
 	"go/constant"
 	"go/token"
+	"go/types"
 	"math"
 	"strings"
 
@@ -125,8 +126,17 @@ func init() {
 		Doc:   "writer and readers agree on the shape of one posting in the two integer streams: the freq/norm stream carries exactly two uvarints per posting (freq<<1|hasLocs, norm) — written by tfEncoder.Add, read by readFreqNormHasLocs (2 reads) and skipped by skipFreqNormReadHasLocs (1 read + 1 skip, hasLocs = value&1); the location stream carries a byte-count prefix then 4 uvarints per location — readLocation reads 4, nextAtOrAfter reads the prefix and loops until that many bytes are consumed, currChunkNext reads the prefix and skips exactly that many bytes",
 		Run: func(c *Ctx, scope string, r *Report) {
 			// writers
+			// (the functions that feed the freq/norm encoder: those that build the freq word,
+			// and the two writers' term loops when they feed an encoder they call tfEncoder)
+			writers := c.fnsCalling("encodeFreqHasLocs")
 			for _, name := range []string{"(*interim).writeDictsTermField", "mergeTermFreqNormLocs"} {
-				fn := c.MustFn(name)
+				if f := c.byName[name]; f != nil && f.Blocks != nil && len(callsOf(f, "encodeFreqHasLocs")) == 0 && paramNamed(f, "tfEncoder") != nil && len(callsOf(f, "(*chunkedIntCoder).Add")) > 0 {
+					writers = append(writers, f)
+				}
+			}
+			nTf := 0
+			for _, fn := range writers {
+				name := fnName(fn)
 				// the freq/norm encoder: the receiver of the Add calls that carry
 				// encodeFreqHasLocs (however the encoder is named or passed)
 				hasEnc := func(add *ssa.Call) bool {
@@ -164,9 +174,10 @@ func init() {
 					}
 					r.ok(key, name, c.pos(add.Pos()), "2 values per posting: encodeFreqHasLocs(freq, hasLocs), norm")
 				}
-				if n == 0 {
-					r.undecided(name+"/tf-entry", name, c.pos(fn.Pos()), "no tfEncoder.Add found")
-				}
+				nTf += n
+			}
+			if nTf < 2 {
+				r.undecided("writers/tf-entry", "", "-", fmt.Sprintf("%d freq/norm Add sites found, the builder and the merger each have one", nTf))
 			}
 			// readers of the freq/norm stream
 			rd := c.MustFn("(*PostingsIterator).readFreqNormHasLocs")
@@ -493,6 +504,15 @@ func init() {
 				switch {
 				case n == 0:
 					r.undecided(key, fnName(sf), c.pos(site.Pos()), "the call of the clean path is unreachable in the boolean abstraction")
+				case !ok && hoistedCleanFlag(c, site) != nil:
+					// the identity test was hoisted into a flag of the iterator: the flag may only be set
+					// where the identity holds, and whoever replaces ActualBM has to set it again
+					f := hoistedCleanFlag(c, site)
+					if why := cleanFlagCoherent(c, f, atoms); why != "" {
+						r.bad(key, fnName(sf), c.pos(site.Pos()), "the clean fast path is taken under the flag ."+f.Name()+", and "+why+": after ReplaceActual the postings stepped over in `all` but absent from Actual are not replayed, so frequencies, norms and locations of earlier documents are returned")
+					} else {
+						r.ok(key, fnName(sf), c.pos(site.Pos()), "clean path under the flag ."+f.Name()+", which is set only where postings == nil || postings.postings == ActualBM and re-established wherever ActualBM is replaced")
+					}
 				case !ok:
 					r.bad(key, fnName(sf), c.pos(site.Pos()), "the clean fast path can be taken when "+describeAsg(names, cex)+": after ReplaceActual the postings stepped over in `all` but absent from Actual are not replayed, so frequencies, norms and locations of earlier documents are returned")
 				default:
@@ -686,6 +706,22 @@ func isChunkOfPosting(v ssa.Value, seen map[ssa.Value]bool) bool {
 	switch x := stripConv(v).(type) {
 	case *ssa.BinOp:
 		return x.Op == token.QUO && strings.HasSuffix(exprSig(stripConv(x.Y), 0), ".chunkSize")
+	case *ssa.Call:
+		// a helper that returns such a quotient
+		sc := x.Call.StaticCallee()
+		if sc == nil || sc.Blocks == nil || sc.Signature.Results().Len() != 1 {
+			return false
+		}
+		n := 0
+		for _, b := range sc.Blocks {
+			if ret, ok := b.Instrs[len(b.Instrs)-1].(*ssa.Return); ok {
+				n++
+				if !isChunkOfPosting(ret.Results[0], seen) {
+					return false
+				}
+			}
+		}
+		return n > 0
 	case *ssa.Phi:
 		for _, e := range x.Edges {
 			if e == ssa.Value(x) {
@@ -834,78 +870,360 @@ func init() {
 				for _, enc := range callsOf(fn, "encodeFreqHasLocs") {
 					key := fnName(fn) + "/has-locs-flag"
 					flag := enc.Call.Args[1]
-					// the Add on the location stream that writes the prefix: the first Add whose receiver
-					// differs from the receiver of the Add carrying the flag, in this function or a helper
-					var tfRecv string
+					var tfVal ssa.Value
 					for _, add := range callsOf(fn, "(*chunkedIntCoder).Add") {
 						for _, v := range varargValues(add.Call.Args[2]) {
 							if v == ssa.Value(enc) {
-								tfRecv = exprSig(add.Call.Args[0], 0)
+								tfVal = add.Call.Args[0]
 							}
 						}
 					}
-					var locAdds []*ssa.Call
-					for _, add := range callsOf(fn, "(*chunkedIntCoder).Add") {
-						if exprSig(add.Call.Args[0], 0) != tfRecv {
-							locAdds = append(locAdds, add)
+					// the bit is computed by the caller and handed in: continue in the (only) caller
+					frame := fn
+					var self ssa.CallInstruction
+					if fp, ok := stripConv(flag).(*ssa.Parameter); ok {
+						sites := c.callsTo(fn)
+						if len(sites) != 1 {
+							r.undecided(key, fnName(fn), c.pos(enc.Pos()), "the has-locations bit is a parameter and the function does not have exactly one caller")
+							continue
+						}
+						self = sites[0]
+						frame = self.Parent()
+						flag = argFor(self.Common(), fp)
+						if tp, ok := tfVal.(*ssa.Parameter); ok {
+							tfVal = argFor(self.Common(), tp)
 						}
 					}
-					// or a helper that is handed the location encoder
-					var helperCalls []*ssa.Call
-					if len(locAdds) == 0 {
-						for _, b := range fn.Blocks {
+					tfRecv := ""
+					if tfVal != nil {
+						tfRecv = exprSig(tfVal, 0)
+					}
+					want := condCanon(flag, true, nil)
+					bad := ""
+					n := 0
+					var visit func(f *ssa.Function, subst map[*ssa.Parameter]ssa.Value, outer string, depth int)
+					visit = func(f *ssa.Function, subst map[*ssa.Parameter]ssa.Value, outer string, depth int) {
+						for _, b := range f.Blocks {
 							for _, ins := range b.Instrs {
 								call, ok := ins.(*ssa.Call)
-								if !ok || call.Call.StaticCallee() == nil || !c.inRoot(call.Call.StaticCallee()) || call.Call.StaticCallee().Blocks == nil {
+								if !ok || ssa.CallInstruction(call) == self {
 									continue
 								}
-								if len(callsOf(call.Call.StaticCallee(), "(*chunkedIntCoder).Add")) > 0 && fnName(call.Call.StaticCallee()) != "encodeFreqHasLocs" {
-									for _, a := range call.Call.Args {
-										if strings.HasSuffix(a.Type().String(), ".chunkedIntCoder") && exprSig(a, 0) != tfRecv {
-											helperCalls = append(helperCalls, call)
+								sc := call.Call.StaticCallee()
+								if sc == nil {
+									continue
+								}
+								isAdd := fnName(sc) == "(*chunkedIntCoder).Add" && exprSigWith(call.Call.Args[0], 0, subst) != tfRecv
+								var sub map[*ssa.Parameter]ssa.Value
+								if !isAdd && depth < 3 && c.inRoot(sc) && sc.Blocks != nil && fnName(sc) != "encodeFreqHasLocs" && len(callsOf(sc, "(*chunkedIntCoder).Add")) > 0 {
+									for i, a := range call.Call.Args {
+										if strings.HasSuffix(a.Type().String(), ".chunkedIntCoder") && exprSigWith(a, 0, subst) != tfRecv && i < len(sc.Params) {
+											sub = map[*ssa.Parameter]ssa.Value{}
+										}
+									}
+									if sub != nil {
+										for i, a := range call.Call.Args {
+											if i < len(sc.Params) {
+												sub[sc.Params[i]] = a
+											}
 										}
 									}
 								}
+								if !isAdd && sub == nil {
+									continue
+								}
+								g := outer
+								if g == "" {
+									var ref ssa.Instruction = enc
+									if self != nil {
+										ref = self
+									}
+									g = guardCanon(call, subst, ref)
+								}
+								if sub != nil && g == "" {
+									visit(sc, sub, "", depth+1)
+									continue
+								}
+								n++
+								switch {
+								case g == "":
+									bad = "the location entries at " + c.pos(call.Pos()) + " are written unconditionally while the has-locations bit is " + want
+								case g != want:
+									bad = "the has-locations bit is " + want + " but the location entries at " + c.pos(call.Pos()) + " are written under " + g + ": a posting whose bit and entries disagree makes the reader decode or skip the wrong bytes"
+								}
 							}
 						}
 					}
-					sites := append(append([]*ssa.Call{}, locAdds...), helperCalls...)
-					if len(sites) == 0 {
+					visit(frame, nil, "", 0)
+					switch {
+					case n == 0:
 						r.undecided(key, fnName(fn), c.pos(enc.Pos()), "cannot find where this writer adds the posting's locations")
-						continue
-					}
-					// the condition guarding the location emission: the closest dominating If whose true edge leads to it
-					bad := ""
-					for _, site := range sites {
-						found := false
-						for b := site.Block(); b != nil && !found; b = b.Idom() {
-							idom := b.Idom()
-							if idom == nil {
-								break
-							}
-							ifi, ok := idom.Instrs[len(idom.Instrs)-1].(*ssa.If)
-							if !ok || len(b.Preds) != 1 || idom.Succs[0] != b {
-								continue
-							}
-							if _, isLoopCond := ifi.Cond.(*ssa.BinOp); isLoopCond && isLoopHeader(idom) {
-								continue // a loop condition, not the guard
-							}
-							found = true
-							if exprSig(ifi.Cond, 0) != exprSig(flag, 0) {
-								bad = "the has-locations bit is " + exprSig(flag, 0) + " but the location entries at " + c.pos(site.Pos()) + " are written under " + exprSig(ifi.Cond, 0) + ": a posting whose bit and entries disagree makes the reader decode or skip the wrong bytes"
-							}
-						}
-						if !found {
-							bad = "the location entries at " + c.pos(site.Pos()) + " are written unconditionally while the has-locations bit is " + exprSig(flag, 0)
-						}
-					}
-					if bad != "" {
+					case bad != "":
 						r.bad(key, fnName(fn), c.pos(enc.Pos()), bad)
-					} else {
-						r.ok(key, fnName(fn), c.pos(enc.Pos()), "bit and location entries are both governed by "+exprSig(flag, 0))
+					default:
+						r.ok(key, fnName(fn), c.pos(enc.Pos()), "bit and location entries are both governed by "+want)
 					}
 				}
 			}
 		},
 	})
+}
+
+// condCanon renders a branch condition (taken with polarity pol) so that the
+// spellings of "this count is not zero" agree: len(x) > 0, len(x) != 0,
+// !(len(x) == 0), n > 0 …  Parameters in subst are replaced by call arguments.
+func condCanon(v ssa.Value, pol bool, subst map[*ssa.Parameter]ssa.Value) string {
+	for {
+		u, ok := v.(*ssa.UnOp)
+		if !ok || u.Op != token.NOT {
+			break
+		}
+		v, pol = u.X, !pol
+	}
+	if p, ok := v.(*ssa.Parameter); ok && subst[p] != nil {
+		return condCanon(subst[p], pol, nil)
+	}
+	if bin, ok := v.(*ssa.BinOp); ok {
+		x, y, op := bin.X, bin.Y, bin.Op
+		if isZeroConst(x) {
+			x, y = y, x
+			switch op {
+			case token.LSS:
+				op = token.GTR
+			case token.GEQ:
+				op = token.LEQ
+			}
+		}
+		if isZeroConst(y) {
+			switch op {
+			case token.GTR, token.NEQ:
+				return polStr(pol) + "nonzero(" + exprSigWith(x, 0, subst) + ")"
+			case token.EQL, token.LEQ:
+				return polStr(!pol) + "nonzero(" + exprSigWith(x, 0, subst) + ")"
+			}
+		}
+	}
+	return polStr(pol) + exprSigWith(v, 0, subst)
+}
+
+func polStr(pol bool) string {
+	if pol {
+		return ""
+	}
+	return "!"
+}
+
+func isZeroConst(v ssa.Value) bool {
+	k, ok := stripConv(v).(*ssa.Const)
+	if !ok || k.Value == nil {
+		return false
+	}
+	n, ok := constant.Int64Val(constant.ToInt(k.Value))
+	return ok && n == 0 && k.Value.Kind() != constant.Bool
+}
+
+// guardCanon: the condition under which the instruction executes - the
+// closest dominating branch that is neither a loop condition nor an error
+// check nor a branch that governs ref as well - in condCanon form; "" when
+// there is none.
+func guardCanon(ins ssa.Instruction, subst map[*ssa.Parameter]ssa.Value, ref ssa.Instruction) string {
+	for b := ins.Block(); b != nil; b = b.Idom() {
+		idom := b.Idom()
+		if idom == nil {
+			return ""
+		}
+		ifi, ok := idom.Instrs[len(idom.Instrs)-1].(*ssa.If)
+		if !ok || len(b.Preds) != 1 {
+			continue
+		}
+		pol := idom.Succs[0] == b
+		if !pol && idom.Succs[1] != b {
+			continue
+		}
+		if isLoopHeader(idom) {
+			continue
+		}
+		if ref != nil && ref.Parent() == b.Parent() && (b == ref.Block() || b.Dominates(ref.Block())) {
+			continue // governs the reference site as well: not what distinguishes the two
+		}
+		if bin, ok := ifi.Cond.(*ssa.BinOp); ok && (isNilConst(bin.X) || isNilConst(bin.Y)) {
+			o := bin.X
+			if isNilConst(o) {
+				o = bin.Y
+			}
+			if o.Type().String() == "error" {
+				continue
+			}
+		}
+		return condCanon(ifi.Cond, pol, subst)
+	}
+	return ""
+}
+
+// hoistedCleanFlag: the call is governed by the true edge of a test of a bool
+// field of the iterator: that field.
+func hoistedCleanFlag(c *Ctx, site ssa.CallInstruction) *types.Var {
+	for b := site.Block(); b != nil; b = b.Idom() {
+		idom := b.Idom()
+		if idom == nil {
+			return nil
+		}
+		ifi, ok := idom.Instrs[len(idom.Instrs)-1].(*ssa.If)
+		if !ok || idom.Succs[0] != b || len(b.Preds) != 1 {
+			continue
+		}
+		ld, ok := ifi.Cond.(*ssa.UnOp)
+		if !ok || ld.Op != token.MUL {
+			continue
+		}
+		fa, ok := ld.X.(*ssa.FieldAddr)
+		if !ok {
+			continue
+		}
+		owner, f := fieldAddrInfo(fa)
+		if owner != nil && owner.Obj().Name() == "PostingsIterator" && f != nil && f.Type().String() == "bool" {
+			return f
+		}
+	}
+	return nil
+}
+
+// cleanFlagCoherent: "" when flag f of the iterator can be true only while
+// ActualBM is the list's own bitmap (or there is no list):
+//   - every store to f stores false, or true next to a store of a list's
+//     .postings into ActualBM, or the value of the identity test itself
+//     (a || b lowered to a phi) taken against the bitmap stored in the same function;
+//   - every function outside the iterator's construction that stores ActualBM
+//     stores f on every path from there to its returns.
+func cleanFlagCoherent(c *Ctx, f *types.Var, atoms func(ssa.Value) (int, bool, bool)) string {
+	pi := c.NamedType("PostingsIterator").Obj()
+	abmStores := c.census().fieldStores[fieldKey{pi, "ActualBM"}]
+	storedBM := func(fn *ssa.Function) []ssa.Value {
+		var out []ssa.Value
+		for _, st := range abmStores {
+			if st.fn == fn {
+				out = append(out, st.val)
+			}
+		}
+		return out
+	}
+	isIdentity := func(v ssa.Value, fn *ssa.Function) bool {
+		if k, neg, ok := atoms(v); ok && !neg {
+			_ = k
+			return true
+		}
+		// postings.postings == <the bitmap this function stores into ActualBM>
+		if bin, ok := v.(*ssa.BinOp); ok && bin.Op == token.EQL {
+			for _, bm := range storedBM(fn) {
+				a, b := bin.X, bin.Y
+				if a == bm {
+					a, b = b, a
+				}
+				if ld, ok := a.(*ssa.UnOp); ok && b == bm && strings.HasSuffix(accessPath(ld.X), ".postings.postings") {
+					return true
+				}
+			}
+		}
+		return false
+	}
+	for _, st := range c.census().fieldStores[fieldKey{pi, f.Name()}] {
+		v := st.val
+		if k, ok := v.(*ssa.Const); ok {
+			if k.Value != nil && k.Value.String() == "false" {
+				continue
+			}
+			// true: next to ActualBM = <list>.postings
+			okTrue := false
+			for _, ab := range abmStores {
+				if ab.fn == st.fn && ab.ins.Block() == st.ins.Block() {
+					if ld, ok := ab.val.(*ssa.UnOp); ok && strings.HasSuffix(accessPath(ld.X), ".postings") {
+						okTrue = true
+					}
+				}
+			}
+			if !okTrue {
+				return "it is set at " + c.pos(st.ins.Pos()) + " where ActualBM is not (evidently) the list's own bitmap"
+			}
+			continue
+		}
+		okExpr := isIdentity(v, st.fn)
+		if phi, ok := v.(*ssa.Phi); ok {
+			okExpr = true
+			for i, e := range phi.Edges {
+				pred := phi.Block().Preds[i]
+				if k, isK := e.(*ssa.Const); isK {
+					if k.Value != nil && k.Value.String() == "false" {
+						continue
+					}
+					// true through the true edge of an identity/no-list test
+					ifi, isIf := pred.Instrs[len(pred.Instrs)-1].(*ssa.If)
+					if !isIf || pred.Succs[0] != phi.Block() || !isIdentity(ifi.Cond, st.fn) {
+						okExpr = false
+					}
+					continue
+				}
+				if !isIdentity(e, st.fn) {
+					okExpr = false
+				}
+			}
+		}
+		if !okExpr {
+			return "the value it is given at " + c.pos(st.ins.Pos()) + " is not the test postings == nil || postings.postings == ActualBM"
+		}
+	}
+	// replacements of ActualBM outside construction
+	ctor := map[*ssa.Function]bool{}
+	if it := c.byName["(*PostingsList).iterator"]; it != nil {
+		ctor[it] = true
+		for _, h := range staticCallees(it) {
+			ctor[h] = true
+			for _, h2 := range staticCallees(h) {
+				ctor[h2] = true
+			}
+		}
+	}
+	fStoreBlocks := map[*ssa.Function]map[*ssa.BasicBlock]bool{}
+	for _, st := range c.census().fieldStores[fieldKey{pi, f.Name()}] {
+		if fStoreBlocks[st.fn] == nil {
+			fStoreBlocks[st.fn] = map[*ssa.BasicBlock]bool{}
+		}
+		fStoreBlocks[st.fn][st.ins.Block()] = true
+	}
+	for _, ab := range abmStores {
+		if ctor[ab.fn] {
+			continue
+		}
+		via := fStoreBlocks[ab.fn]
+		if via[ab.ins.Block()] {
+			continue
+		}
+		seen := map[*ssa.BasicBlock]bool{}
+		var escapes func(b *ssa.BasicBlock) bool
+		escapes = func(b *ssa.BasicBlock) bool {
+			if seen[b] || via[b] {
+				return false
+			}
+			seen[b] = true
+			if len(b.Succs) == 0 {
+				return true
+			}
+			for _, s := range b.Succs {
+				if escapes(s) {
+					return true
+				}
+			}
+			return false
+		}
+		start := ab.ins.Block()
+		leaks := len(start.Succs) == 0
+		for _, s := range start.Succs {
+			if escapes(s) {
+				leaks = true
+			}
+		}
+		if leaks {
+			return fnName(ab.fn) + " replaces ActualBM at " + c.pos(ab.ins.Pos()) + " and leaves the flag as it was"
+		}
+	}
+	return ""
 }
